@@ -451,6 +451,29 @@ def execute(case: dict) -> Outcome:
                         V.append(Violation("C09.O2", "tracking returned a non-finite droplet",
                                            {"stage": "tracking", "family": fam}))
                         break
+        # ---- stage 4b: tracking the scene's own droplets (all classes, mixed within a frame,
+        # empty frames included) as a time course, both methods
+        def scene_course():
+            ems = [droplets.Emulsion([scenes.make_droplet(s) for s in f.get("droplets", [])])
+                   for f in case["frames"]]
+            return droplets.EmulsionTimeCourse(ems, times=[float(i) for i in range(len(ems))])
+
+        ok, setc = guard("scene_course", scene_course)
+        if ok:
+            for method in ("overlap", "distance"):
+                kw2 = {"method": method}
+                if tr["grid"]:
+                    kw2["grid"] = fields[0][1].grid
+                ok, tracks2 = guard(
+                    "tracking", lambda: droplets.DropletTrackList.from_emulsion_time_course(setc, **kw2),
+                    {"method": method, "with_grid": str(tr["grid"]), "input": "scene"})
+                if ok:
+                    cnt.inc("tracked_scene_histories")
+                    if sum(len(t) for t in tracks2) != sum(len(e) for e in setc.emulsions):
+                        V.append(Violation("C09.O2", "tracking the scene droplets returned "
+                                           f"{sum(len(t) for t in tracks2)} droplets for "
+                                           f"{sum(len(e) for e in setc.emulsions)}",
+                                           {"stage": "tracking", "family": fam, "input": "scene"}))
         # also the offline route over stored fields
         st = MemoryStorage.from_fields([float(i) for i in range(len(fields))], [f for _, f in fields])
         ok, _ = guard("from_storage", lambda: droplets.EmulsionTimeCourse.from_storage(
